@@ -1119,3 +1119,5 @@ RULE += (' Added: a 2-tuple with a dict second as the data a Combine receives (a
 RULE += (' Added: compositions nested behind variables without a type (corner cases).')
 RULE += (' Added: one variable object applied after different upstream variables of one type, '
          'against a variable object of its own.')
+
+RULE += (' Round 10: Compose of 17..2500 variables (typed and untyped) against the getters applied one after the other.')
